@@ -8,3 +8,73 @@ use super::*;
 pub(crate) fn quoted_unchecked(s: String) -> QuotedString {
     QuotedString(s)
 }
+
+// ---------------------------------------------------------------------------------------------
+// C19/C03: the quoted-string constructor's trimming (`formatted_quoted_string_from`) never
+// panics on text the grammar admits.  The grammar verdict is over-approximated (`qs_any`); the
+// text is  L leading + core + T trailing characters where leading/trailing are drawn from the
+// removable set and from grammar-admitted non-ASCII pairs (lead U+00C0..DF + cont U+0080..BF,
+// each two UTF-8 bytes), i.e. multi-byte characters sit at the very start and the very end.
+// ---------------------------------------------------------------------------------------------
+use crate::support_common::*;
+
+fn removable_or_plain() -> u8 {
+    let c: u8 = kani::any();
+    kani::assume(c == 0x20 || c == 0x09 || c == 0x0d || c == 0x0a || c == 0x22 || (c >= 0x23 && c <= 0x7e && c != 0x5c));
+    c
+}
+
+fn c19_quoted_trim<const PRE: usize, const POST: usize, const N: usize>() {
+    // N = PRE + 4 + 1 + 4 + POST : pre ascii | lead cont | 'm' | lead cont | post ascii
+    let mut b = [0u8; N];
+    let mut i = 0;
+    while i < PRE {
+        b[i] = removable_or_plain();
+        i += 1;
+    }
+    let mut o = PRE;
+    let mut k = 0;
+    while k < 2 {
+        let lead: u8 = kani::any();
+        let cont: u8 = kani::any();
+        kani::assume(lead >= 0x80 && lead <= 0x9f && cont >= 0x80 && cont <= 0xbf);
+        b[o] = 0xc3;
+        b[o + 1] = lead;
+        b[o + 2] = 0xc2;
+        b[o + 3] = cont;
+        o += 4;
+        if k == 0 {
+            b[o] = b'm';
+            o += 1;
+        }
+        k += 1;
+    }
+    let mut i = 0;
+    while i < POST {
+        b[o + i] = removable_or_plain();
+        i += 1;
+    }
+    let s = unsafe { std::str::from_utf8_unchecked(&b) };
+    let r = QuotedString::new(s);
+    if let Ok(q) = &r {
+        assert!(q.as_str().len() <= N);
+    }
+    kani::cover!(r.is_ok());
+    std::mem::forget(r);
+}
+
+macro_rules! trim_inst {
+    ($($name:ident = ($pre:expr, $post:expr, $n:expr);)*) => {$(
+        #[kani::proof]
+        #[kani::unwind(16)]
+        #[kani::stub(alloc::fmt::format, nofmt)]
+        #[kani::stub(quoted_string_parser::QuotedStringParser::validate, qs_any)]
+        fn $name() { c19_quoted_trim::<$pre, $post, $n>(); }
+    )*};
+}
+trim_inst! {
+    c19_quoted_trim_0_0 = (0, 0, 9);
+    c19_quoted_trim_1_1 = (1, 1, 11);
+    c19_quoted_trim_2_0 = (2, 0, 11);
+    c19_quoted_trim_0_2 = (0, 2, 11);
+}
